@@ -97,9 +97,11 @@ def csr_layout(draw, max_regs=6, dws=CSR_DWS, overlaps=True, high=None, huge=Fal
         regs = [{"w": dw * draw(st.sampled_from([1, 2, 3, 3, 5, 6, 6, 7])) - draw(st.sampled_from([0, 0, 1]) if dw > 1 else st.just(0)),
                  "acc": draw(st.sampled_from(["r", "w", "rw", "rw", "rw"])), "mode": "gap",
                  "gap": draw(st.sampled_from([0, 0, 0, 1, 2, 3])), "pad": 0} for _ in range(n)]
-        lay = {"dw": dw, "al": 0, "regs": regs, "extra_aw": draw(st.integers(0, 1))}
+        lay = {"dw": dw, "al": 0, "regs": regs, "extra_aw": draw(st.integers(0, 1)),
+               # registers added after the multiplexer exists / after it was elaborated once
+               "late": draw(st.sampled_from([0, 0, 1, 2, 3])), "mid_elab": draw(st.booleans())}
         if overlaps:
-            lay["ov"] = draw(st.sampled_from([None, 0, 1, 1, 2, 3]))
+            lay["ov"] = draw(st.sampled_from([None, None, 0, 1, 1, 2, 3]))
         return lay
     if draw(st.integers(0, 9)) == 0:
         # "aliased" family: naturally aligned registers whose addresses agree in their low bits
